@@ -136,12 +136,13 @@ def dhv_contract():
         return opt_parts(c.args["value"])
 
     def inv(lc):
-        v = lc.entry.lookup("value")
-        _n, s = opt_parts(v)
+        # the chunks are those of the value handed to email.header.decode_header (whatever it is): that this is the
+        # UNFOLDED header value is part of the postcondition
+        src = decode_source(lc.seq)
         n, el = built_list(lc, 0)
         i = lc.i
         return Conj([("count", n == i),
-                     ("chunks", forall(i, lambda k: el(k).t == M.dh_piece(s, k), "k!dh"))])
+                     ("chunks", forall(i, lambda k: el(k).t == M.dh_piece(src, k), "k!dh"))])
 
     def result_maker(ex, st, ctx):
         n, s = s_of(ctx)
@@ -150,6 +151,8 @@ def dhv_contract():
     def e_value(c):
         """result == dhv_term(value).  `"".join(xs)` is compared argument-wise: same separator, same length, same elements
         on [0, length) (str.join depends on nothing else)."""
+        if not verifying(c, "::decode_header_value"):
+            return z3.BoolVal(True)        # call sites get the functional result (result_maker); nothing else to assume
         none, s = s_of(c)
         miss = z3.Or(none, z3.Length(s) == 0)
         r = c.result
@@ -159,7 +162,8 @@ def dhv_contract():
         if j is None:
             return z3.And(miss, r.t == M.EMPTY)
         sep, arr, n = j
-        return z3.And(z3.Not(miss), sep == M.EMPTY, n == M.DH_N(s), forall(n, lambda k: z3.Select(arr, k) == M.dh_piece(s, k), "k!dj"))
+        su = M.UNFOLD(s)
+        return z3.And(z3.Not(miss), sep == M.EMPTY, n == M.DH_N(su), forall(n, lambda k: z3.Select(arr, k) == M.dh_piece(su, k), "k!dj"))
 
     return FnContract(
         target=f"{MBOX}::decode_header_value",
@@ -170,6 +174,14 @@ def dhv_contract():
         result_maker=result_maker,
         note="never raises; == ''.join(decoded chunk k) with charset fallback utf-8 and errors replaced",
     )
+
+
+def decode_source(seq):
+    """The string whose decode_header chunks the sequence enumerates (read off the length term DH_N(src))."""
+    t = seq.length if isinstance(seq, VSeq) else None
+    if t is not None and z3.is_app(t) and t.decl().name() == "decode_header_n":
+        return t.arg(0)
+    raise Unsupported("loop does not iterate over email.header.decode_header(...)")
 
 
 def join_parts(t):
@@ -368,11 +380,11 @@ def pem_spec(m):
     fmiss = z3.Or(fn, z3.Length(fs) == 0)
     return {
         "subject": STRIP(M.dhv(h("Subject"))),
-        "in_reply_to": M.dhv(h("In-Reply-To")),
+        "in_reply_to": STRIP(M.dhv(h("In-Reply-To"))),
         "from_name": z3.If(fmiss, M.EMPTY, M.dhv_term(z3.BoolVal(False), M.PA_NAME(fs))),
         "from_addr": z3.If(fmiss, M.EMPTY, M.PA_ADDR(fs)),
         "date": M.date_spec(m),
-        "message_id": M.dhv(h("Message-ID")),
+        "message_id": STRIP(M.dhv(h("Message-ID"))),
         "body_plain": STRIP(M.body_plain_spec(m)),
         "body_html": M.body_html_spec(m),
     }
@@ -415,6 +427,13 @@ def pem_contract():
             return z3.BoolVal(False)
         return r[0] == M.ATT_N(m_of(c))
 
+    def e_no_invented(c):
+        # the part of "every attachment" that holds outside the recorded finding F21-mbox-no-attachments
+        r = seq_of(c.st, data(c)["attachments"], ("obj", "EmailAttachment"))
+        if r is None:
+            return z3.BoolVal(False)
+        return z3.Implies(M.ATT_N(m_of(c)) == 0, r[0] == 0)
+
     def result_maker(ex, st, ctx):
         m = ctx.args["message"].t
         sp = pem_spec(m)
@@ -450,7 +469,8 @@ def pem_contract():
                  ("message_id-is-the-decoded-Message-ID", f_str(lambda c: meta(c)["message_id"], "message_id")),
                  ("body_plain-is-the-plain-body", f_str(lambda c: data(c)["body_plain"], "body_plain")),
                  ("body_html-is-the-html-body", f_str(lambda c: data(c)["body_html"], "body_html")),
-                 ("every-attachment-is-returned", e_atts)],
+                 ("every-attachment-is-returned", e_atts),
+                 ("no-attachment-when-the-message-has-none", e_no_invented)],
         raises=[],
         result_maker=result_maker,
         note="every message yields a result (no header is mandatory); fields mapped from the headers / parts named in the labels",
@@ -580,7 +600,7 @@ def eml_spec(mail):
     fr = z3.StringVal("from_")
     has_from = M.ML_N(mail, fr) > 0
     return {
-        "subject": STRIP(h("subject")), "in_reply_to": h("in_reply_to"), "message_id": h("message_id"),
+        "subject": STRIP(M.UNFOLD(h("subject"))), "in_reply_to": h("in_reply_to"), "message_id": h("message_id"),
         "date": z3.If(M.MDATE_NONE(mail), M.EMPTY, M.ISO(M.MDATE(mail))),
         "from_name": z3.If(has_from, M.ML_NAME(mail, fr, 0), M.EMPTY), "from_addr": z3.If(has_from, M.ML_ADDR(mail, fr, 0), M.EMPTY),
         "body_plain": STRIP(text("text_plain")), "body_html": text("text_html"),
@@ -1038,6 +1058,165 @@ def contracts(reg):
     return out
 
 
-TRUSTED = []
-ASSUMED_MODELS = []
-ASSUMPTIONS = []
+# ================================================================= ground / dataflow ==
+SEP_MUST = [b"From a@x.org Mon Jan  1 00:00:00 2024\n", b"From a@x.org Mon Jan  1 00:00:00 2024\r\n",
+            b"From MAILER-DAEMON Sat Oct  3 21:40:04 2026\n", b"From - Tue Feb 20 10:00:00 2024\n"]
+SEP_MUST_NOT = [b">From a@x.org Mon Jan  1 00:00:00 2024\n", b"From: a@x.org\n", b" From a@x.org Mon Jan  1 00:00:00 2024\n",
+                b"from a@x.org Mon Jan  1 00:00:00 2024\n", b"Subject: From a@x.org Mon Jan  1 00:00:00 2024\n", b"From \n", b"\n"]
+
+
+def pattern_obligations(repo, tier):
+    """MBOX_FROM_PATTERN (the literal of the real source, compiled here): a separator is a whole line starting with 'From ',
+    LF or CRLF terminated; matching is anchored at line starts only; quoted '>From ' lines and headers never match; on a
+    small generated corpus every match is exactly one line (this validates the assumed shape of finditer)."""
+    import itertools
+    import re
+    m = loader.module(MBOX, repo)
+    obls = []
+    G = lambda label, ok, why="": obls.append(ground_obligation(f"C16/mbox_email_extractor.py::MBOX_FROM_PATTERN/module-invariant#{label}", ok, why,
+                                                                 MBOX, kind="module-invariant", backend="ground"))
+    node = m.assigns.get("MBOX_FROM_PATTERN")
+    try:
+        assert isinstance(node, ast.Call) and ast.unparse(node.func) == "re.compile"
+        pat = ast.literal_eval(node.args[0])
+        flags = 0
+        for a in node.args[1:]:
+            flags |= eval(ast.unparse(a), {"re": re})
+        rx = re.compile(pat, flags)
+    except Exception as e:  # noqa
+        obls.append(ground_obligation("C16/mbox_email_extractor.py::MBOX_FROM_PATTERN/module-invariant#pattern-is-a-compiled-bytes-literal", False,
+                                      f"shape not recognised: {e}", MBOX, kind="module-invariant", backend="ground", definite=False))
+        return {"obligations": obls, "functions": []}
+    bad = [x for x in SEP_MUST if not (rx.match(x) and rx.match(x).end() == len(x))]
+    G("separator-lines-match-whole-line-LF-and-CRLF", not bad, repr(bad))
+    bad = [x for x in SEP_MUST_NOT if rx.search(x)]
+    G("quoted-From-lines-headers-and-indented-lines-do-not-match", not bad, repr(bad))
+    lines = [b"From a@x.org Mon Jan  1 00:00:00 2024", b">From b 2024", b"From: a@x.org", b"body 2024", b"", b"From x 1999", b"Fromage 2024",
+             b"x From a@x.org Mon Jan  1 00:00:00 2024"]
+    bad = []
+    n_checked = 0
+    for eol in (b"\n", b"\r\n"):
+        for k in (1, 2, 3, 4):
+            for combo in itertools.product(lines, repeat=k):
+                if k == 4 and combo[0] is not lines[0]:
+                    continue
+                data = eol.join(combo) + eol
+                ms = list(rx.finditer(data))
+                n_checked += 1
+                want = []
+                pos = 0
+                for ln in combo:
+                    if re.fullmatch(rb"From \S+.*\d{4}", ln):
+                        want.append((pos, pos + len(ln) + len(eol)))
+                    pos += len(ln) + len(eol)
+                got = [(x.start(), x.end()) for x in ms]
+                if got != want:
+                    bad.append((data, got, want))
+                    break
+    G("matches-are-exactly-the-separator-lines-(generated-corpus)", not bad and n_checked > 1000, f"{n_checked} mailboxes; first disagreement: {bad[:1]}")
+    return {"obligations": obls, "functions": []}
+
+
+def frame_obligations(repo, tier):
+    """populate_from_path (called on every result's metadata after parsing) assigns only the four file-metadata fields."""
+    dt = loader.module(DT, repo)
+    fn = dt.functions.get("FileMetadataInterface.populate_from_path")
+    allowed = {"filename", "file_extension", "file_path", "folder_path"}
+    ok, why = False, "function missing"
+    if fn is not None:
+        stores = [n for n in ast.walk(fn) if isinstance(n, ast.Attribute) and isinstance(n.ctx, ast.Store)]
+        calls = [n for n in ast.walk(fn) if isinstance(n, ast.Call) and isinstance(n.func, ast.Attribute) and isinstance(n.func.value, ast.Name)
+                 and n.func.value.id == "self"]
+        names = [ast.unparse(n_) for n_ in ast.walk(fn) if isinstance(n_, ast.Call) and isinstance(n_.func, ast.Name) and n_.func.id in ("setattr", "vars")]
+        bad = [ast.unparse(n) for n in stores if not (isinstance(n.value, ast.Name) and n.value.id == "self" and n.attr in allowed)]
+        ok = bool(stores) and not bad and not calls and not names
+        why = f"stores outside the file-metadata fields: {bad}; self-calls: {[ast.unparse(c) for c in calls]}; dynamic: {names}"
+    md = dt.classes.get("EmailMetadata")
+    own = [b.target.id for b in md.body if isinstance(b, ast.AnnAssign)] if md is not None else []
+    ok2 = md is not None and set(own) == {"date", "message_id"} and not (set(own) & allowed)
+    return {"obligations": [
+        ground_obligation("C16/data_types.py::FileMetadataInterface.populate_from_path/frame#assigns-only-file-metadata-fields", ok, why, DT, definite=False),
+        ground_obligation("C16/data_types.py::EmailMetadata/frame#date-and-message_id-are-not-file-metadata-fields", ok2, str(own), DT, definite=False)],
+        "functions": [dict(dt.fn_info("FileMetadataInterface.populate_from_path"), obligations=1)] if fn is not None else []}
+
+
+EXTRA = [pattern_obligations, frame_obligations]
+REPLAY_UNKNOWN = True      # an obligation the solver leaves unknown is searched natively (replay/C16.py) before it is reported undecided
+
+
+def known_findings(kf, violations, repo, tier):
+    """Recorded genuine defects (known_findings.json): each witness is replayed natively; a finding that still fails prints
+    KNOWN-FINDING and covers exactly its own obligation id(s)."""
+    import json
+    import os
+    import subprocess
+    out = []
+    vio_ids = {v["id"] for v in violations}
+    root = os.path.dirname(os.path.dirname(os.path.abspath(__file__)))
+    for f in kf:
+        req = {"property": "C16", "obligation": f["obligation"], "known_finding": f["id"], "witness": f.get("witness"), "repo": repo}
+        try:
+            p = subprocess.run(["/venv/bin/python", os.path.join(root, "replay", "run.py")], input=json.dumps(req), capture_output=True,
+                               text=True, timeout=600, env=dict(os.environ, VERIF_REPO=repo))
+            lines = [l for l in p.stdout.splitlines() if l.startswith("{")]
+            res = json.loads(lines[-1]) if lines else {"reproduced": False}
+        except Exception as e:  # noqa
+            res = {"reproduced": False, "note": str(e)}
+        still = bool(res.get("reproduced"))
+        covers = [o for o in f.get("covers", [f["obligation"]]) if o in vio_ids] if still else []
+        out.append({"finding": f["id"], "still_fails": still, "line": f"{f['id']}: {f['what']}", "covers": covers,
+                    "witness_replay": res.get("observed", res.get("note", ""))})
+    return out
+
+
+TRUSTED = [
+    "stdlib email: message_from_bytes / Message.get / walk / get_content_type / get_payload(decode=True) / get_content_charset / "
+    "get_content_disposition, email.header.decode_header, email.utils.getaddresses / parseaddr / parsedate_to_datetime "
+    "(decoding correctness of RFC 2047 / MIME lives there; uninterpreted here)",
+    "mailparser.parse_from_bytes: mail.from_/to/cc/bcc/reply_to are lists of decoded (name, address) pairs that all carry an "
+    "address; subject/message_id/in_reply_to str or None; date datetime or None; text_plain/text_html lists of str; attachments "
+    "dicts {filename, mail_content_type, payload, binary} with binary => payload is the base64 text of the attachment's bytes",
+    "msg_parser.MsOxMessage properties are functions of the file bytes",
+    "re: finditer yields ordered, non-overlapping, non-empty matches inside the data (the pattern itself is checked by ground "
+    "obligations on the compiled literal)",
+    "router.get_extractor / mime_types.is_supported_mime_type: verified by the C07 pack (used through the shape of its contract; "
+    "table content enters through the lemmas mime-fallback-routes.*)",
+]
+ASSUMED_MODELS = [
+    "email.message_from_bytes (total)", "email.message.Message.get (str | None, case-insensitive)", "Message.walk() (finite, depth-first order)",
+    "Message.is_multipart / get_content_type / get_content_charset / get_content_disposition / get_filename",
+    "Message.get_payload(decode=True) (bytes | None)", "email.header.decode_header (list of (bytes|str, charset|None))",
+    "email.utils.getaddresses / parseaddr (total)", "email.utils.parsedate_to_datetime (ValueError/TypeError when not a date)",
+    "datetime.isoformat", "bytes.decode(cs, errors='replace') raises only LookupError, for an unknown codec; 'utf-8' is known",
+    "str.encode('utf-8', errors='ignore') total", "bytes.rstrip(b'\\r\\n')", "base64.b64decode (may raise)",
+    "re.Pattern.finditer / Match.start / Match.end; re.search (total)", "io.BytesIO(data) / seek / read / getvalue (content and position)",
+    "mailparser.parse_from_bytes and the attribute shapes listed in TRUSTED", "msg_parser.MsOxMessage (may raise)",
+    "str.strip (uninterpreted; ''.strip() == '')", "str.join over a symbolic sequence: depends only on separator, length and the elements below the length",
+    "msg_email_extractor._parse_multi_recipients, _extract_msg_attachments, _looks_like_html, _html_to_text: NOT verified, used as "
+    "deterministic functions (dataflow of read_msg_format_mail only)",
+    "FileMetadataInterface.populate_from_path: frame = four file-metadata fields (checked syntactically on the source)",
+]
+ASSUMPTIONS = [
+    "bytes of symbolic length are modelled as strings of code points < 256 (latin-1 isomorphism); no operation of the verified code "
+    "distinguishes the two except isinstance, which is modelled",
+    "PY-RE, PY-STR, PY-EXC / EXC-ANY, PY-GEN, logger calls dropped (PY-LOG)",
+    "DT-TYPED: fields of the content dataclasses hold values of their declared types",
+    "CNT_SP / CNT_GA / FIRST_P / FIRST_H are defined by primitive recursion; their definitional equations are supplied as ground "
+    "instances where an invariant is assumed (conservative extension)",
+    "Message.get returns str for every header (compat32 policy returns email.header.Header for raw 8-bit header bytes: not modelled)",
+    "a generator's consumer may stop after any prefix",
+]
+NOT_CLAIMED = [
+    "correct decoding of RFC 2047 words, charsets, base64/quoted-printable, header folding, MIME nesting: stdlib email / mailparser "
+    "(exercised natively by replay/C16.py against the stdlib generator's ground truth, not proved)",
+    "msg: totality (a .msg without Subject / sent date fails as a whole: msg.subject None -> AttributeError in __post_init__, "
+    "parsedate_to_datetime(None) -> TypeError); _parse_multi_recipients, _extract_msg_attachments; reply_to is stored unparsed",
+    "mboxrd un-escaping: a body line '>From ' stays quoted in body_plain (mailbox.mbox does the same); boundaries are unaffected",
+    "several inline text/plain parts: .mbox keeps the first, .eml (mailparser) joins all with a newline -- the two extractors disagree "
+    "(natively: 'first part' vs 'first part\\nsecond part'); single-part non-text message: .mbox decodes it as body_plain, .eml gives ''",
+    "iterate_supported_attachments skips an attachment whose MIME type is not in the table even when its file name is routable "
+    "(e.g. report.pdf sent as application/octet-stream): `supported` is read as the is_supported_mime_type flag of the data model",
+    "date strings of .eml (UTC, +00:00) and .mbox (original offset) denote the same instant but are not the same string",
+]
+BOUNDED = ["a regular expression used with re.sub is taken to implement RFC 5322 unfolding when it does so on the table c16_exec.UNFOLD_TABLE "
+           "(evaluated with the real `re`); otherwise it stays an uninterpreted substitution"]
